@@ -229,7 +229,7 @@ def run(rep: Report, rng, tier: str, known: dict, search: bool = False) -> None:
 def evidence(rep: Report) -> None:
     write_evidence(
         rep,
-        rule="cases = (expression over up to 3 variables, a subset of its variables supplied by the point, optionally an extra coordinate, a differentiation variable occurring or not); evaluation and 5 (quick) / all (thorough) derivative routes; bare-number entry and Derivative construction; plus 35 variable names (every parameter name of the library's own methods, keywords, digits-first, '_', non-ASCII letters/digits/marks, a 300-character name) through Variable.at(number), Point(**{name: v}), Partial, Derivative, LocatedDifferential; non-trivial = at least one variable; distinct by (wire, point)",
+        rule="cases = (expression over up to 3 variables, a subset of its variables supplied by the point, optionally an extra coordinate, a differentiation variable occurring or not); evaluation and 5 (quick) / all (thorough) derivative routes; bare-number entry and Derivative construction; plus 35 variable names (every parameter name of the library's own methods, keywords, digits-first, '_', non-ASCII letters/digits/marks, a 300-character name) through Variable.at(number), Point(**{name: v}), Partial, Derivative, LocatedDifferential; non-trivial = at least one variable; distinct by (wire, point); plus points with 9-60 unrelated coordinates, cancelling occurrences, early Derivative acceptance, and the two spellings of the point on chains nested 300-600 deep under the default recursion limit",
         trusted=common.TRUSTED + ["keyword-argument passing of CPython (names reach Point through **dict)"],
         assumptions=[common.ASSUME_RANGE],
     )
